@@ -539,7 +539,10 @@ func init() {
 					continue
 				}
 				mode := []int{0, 0, 0, 1, 2}[c.rng.Intn(5)]
-				gs := mapGeom(g, func(p orb.Point) orb.Point { return orb.Point{c06St(mode, p[0]), c06St(mode, p[1])} })
+				gs := g // (as it is, views of shared arrays and all, when nothing is stretched)
+				if mode != 0 {
+					gs = mapGeom(g, func(p orb.Point) orb.Point { return orb.Point{c06St(mode, p[0]), c06St(mode, p[1])} })
+				}
 				site := guard(func() { e["b"] = boundEnc(gs.Bound()) })
 				if site != "" {
 					c.emit(panicEvent("Bound", site, gm))
